@@ -27,6 +27,7 @@ let () = iter_lines (fun line ->
        | "c2r" -> Printf.printf "ok %s\n" (flat3 (rgb_rgb_convert lay (nth 0) ptrs wn))
        | "y2c" -> Printf.printf "ok %s\n" (pr (ycc_rgb_convert p lay (img3 ()) (nth 3) ptrs))
        | "r2c" -> Printf.printf "ok %s\n" (pr (rgb_ext_convert amax lay (img3 ()) (nth 3) ptrs))
+       | "r2g" -> Printf.printf "ok %s\n" (pr (rgb_gray_convert_d p (img3 ()) (nth 3) ptrs))
        | "y2g" -> Printf.printf "ok %s\n" (pr (grayscale_convert_d (img3 ()) (nth 3) ptrs))
        | "g2c" -> Printf.printf "ok %s\n" (pr (gray_rgb_convert amax lay (rowsof 0 w) (nth 1) ptrs))
        | "m1" | "m2" ->
